@@ -2,6 +2,7 @@ package rules
 
 import (
 	"fmt"
+	"go/token"
 	"go/types"
 	"sort"
 	"strings"
@@ -42,6 +43,24 @@ func init() {
 			{Name: "pending requests keyed by the control type", ExpectRule: "C39.R3", ExpectKey: "agent.Agent.pendingControl", Edits: []Edit{
 				{File: "internal/agent/agent.go", Old: "\ta.pendingControl[requestID] = pending\n", New: "\ta.pendingControl[uint64(controlType)] = pending\n"},
 			}},
+			{Name: "seed class C39-b: requester's id restored before the pending lookup", ExpectRule: "C39.R4", ExpectKey: "uses the wire id", Edits: []Edit{
+				{File: "internal/agent/agent.go", Old: "\tpending, hasPending := a.pendingControl[resp.RequestID]\n\tif hasPending {\n\t\tdelete(a.pendingControl, resp.RequestID)\n\t}\n\n\tforwarded, hasForwarded := a.forwardedControl[resp.RequestID]\n\tif hasForwarded {\n\t\tdelete(a.forwardedControl, resp.RequestID)\n\t}\n", New: "\tforwarded, hasForwarded := a.forwardedControl[resp.RequestID]\n\tif hasForwarded {\n\t\tdelete(a.forwardedControl, resp.RequestID)\n\t\tresp.RequestID = forwarded.RequestID\n\t}\n\n\tpending, hasPending := a.pendingControl[resp.RequestID]\n\tif hasPending {\n\t\tdelete(a.pendingControl, resp.RequestID)\n\t}\n"},
+			}},
+			{Name: "pending lookup keyed by a local that is overwritten with the stored requester id", ExpectRule: "C39.R4", ExpectKey: "uses the wire id", Edits: []Edit{
+				{File: "internal/agent/agent.go", Old: "\tpending, hasPending := a.pendingControl[resp.RequestID]\n\tif hasPending {\n\t\tdelete(a.pendingControl, resp.RequestID)\n\t}\n\n\tforwarded, hasForwarded := a.forwardedControl[resp.RequestID]\n\tif hasForwarded {\n\t\tdelete(a.forwardedControl, resp.RequestID)\n\t}\n", New: "\tid := resp.RequestID\n\tforwarded, hasForwarded := a.forwardedControl[id]\n\tif hasForwarded {\n\t\tdelete(a.forwardedControl, id)\n\t\tid = forwarded.RequestID\n\t}\n\n\tpending, hasPending := a.pendingControl[id]\n\tif hasPending {\n\t\tdelete(a.pendingControl, id)\n\t}\n"},
+			}},
+			{Name: "relayed response sent on without restoring the requester's id", ExpectRule: "C39.R4", ExpectKey: "carries the requester's id", Edits: []Edit{
+				{File: "internal/agent/agent.go", Old: "\t\tresp.RequestID = forwarded.RequestID\n", New: ""},
+			}},
+			{Name: "forwarded entry stores the allocated id instead of the requester's", ExpectRule: "C39.R4", ExpectKey: "entry keeps the requester's id", Edits: []Edit{
+				{File: "internal/agent/agent.go", Old: "\t\t\tRequestID:  req.RequestID,\n\t\t\tSourcePeer: peerID,\n", New: "\t\t\tRequestID:  fwdID,\n\t\t\tSourcePeer: peerID,\n"},
+			}},
+			{Name: "request forwarded under the requester's id although registered under the allocated one", ExpectRule: "C39.R4", ExpectKey: "carries the allocated id", Edits: []Edit{
+				{File: "internal/agent/agent.go", Old: "\t\t\tRequestID:   fwdID,\n", New: "\t\t\tRequestID:   req.RequestID,\n"},
+			}},
+			{Name: "rewrite: wire id saved in a local, response re-encoded from a fresh literal", Edits: []Edit{
+				{File: "internal/agent/agent.go", Old: "\tpending, hasPending := a.pendingControl[resp.RequestID]\n\tif hasPending {\n\t\tdelete(a.pendingControl, resp.RequestID)\n\t}\n\n\tforwarded, hasForwarded := a.forwardedControl[resp.RequestID]\n\tif hasForwarded {\n\t\tdelete(a.forwardedControl, resp.RequestID)\n\t}\n", New: "\twireID := resp.RequestID\n\tforwarded, hasForwarded := a.forwardedControl[wireID]\n\tif hasForwarded {\n\t\tdelete(a.forwardedControl, wireID)\n\t}\n\tpending, hasPending := a.pendingControl[wireID]\n\tif hasPending {\n\t\tdelete(a.pendingControl, wireID)\n\t}\n"},
+			}},
 			{Name: "rewrite: next id computed first, then stored", Edits: []Edit{
 				{File: "internal/agent/agent.go", Old: "\ta.controlMu.Lock()\n\ta.nextControlID++\n\trequestID := a.nextControlID\n", New: "\ta.controlMu.Lock()\n\trequestID := a.nextControlID + 1\n\ta.nextControlID = requestID\n"},
 			}},
@@ -59,6 +78,102 @@ func init() {
 	})
 }
 
+// c39EncodedObject: for a SendToPeer(peer, frame) call, the object whose Encode() result was
+// stored into the frame's []byte payload field, and that Encode call.
+func c39EncodedObject(c ssa.CallInstruction) (ssa.Value, *ssa.Call) {
+	frame := kit.Arg(c, 1)
+	if frame == nil || frame.Referrers() == nil {
+		return nil, nil
+	}
+	for _, rf := range *frame.Referrers() {
+		fa, ok := rf.(*ssa.FieldAddr)
+		if !ok {
+			continue
+		}
+		sl, ok := kit.FieldOfAddr(fa).Type().Underlying().(*types.Slice)
+		if !ok {
+			continue
+		}
+		if b, ok := sl.Elem().Underlying().(*types.Basic); !ok || b.Kind() != types.Byte {
+			continue
+		}
+		for _, rf2 := range *fa.Referrers() {
+			st, ok := rf2.(*ssa.Store)
+			if !ok || st.Addr != fa {
+				continue
+			}
+			if enc, _, isCall := kit.ResultOf(st.Val); isCall {
+				if recv := kit.Receiver(enc); recv != nil {
+					return recv, enc
+				}
+			}
+		}
+	}
+	return nil, nil
+}
+
+// c39ForeignKey follows the lookup key backwards inside fn (phis, locals, and — for a field of
+// the decoded frame — every store to that field that can execute before the lookup). It
+// returns a description when the key can be a value read from a stored table entry.
+func c39ForeignKey(fn *ssa.Function, key ssa.Value, at ssa.Instruction, isEntryBase func(ssa.Value) bool) string {
+	seen := map[ssa.Value]bool{}
+	var walk func(v ssa.Value) string
+	walk = func(v ssa.Value) string {
+		v = c16Strip(v)
+		if seen[v] {
+			return ""
+		}
+		seen[v] = true
+		switch x := v.(type) {
+		case *ssa.Phi:
+			for _, e := range x.Edges {
+				if w := walk(e); w != "" {
+					return w
+				}
+			}
+		case *ssa.UnOp:
+			if x.Op != token.MUL {
+				return ""
+			}
+			if a, ok := x.X.(*ssa.Alloc); ok {
+				for _, rf := range *a.Referrers() {
+					if st, isSt := rf.(*ssa.Store); isSt && st.Addr == a {
+						if w := walk(st.Val); w != "" {
+							return w
+						}
+					}
+				}
+				return ""
+			}
+			f, base := kit.LoadedField(x)
+			if f == nil {
+				return ""
+			}
+			if isEntryBase(base) {
+				return "the id stored in a table entry (field " + f.Name() + ")"
+			}
+			// redefinitions of the same field of the same object before the lookup
+			w := ""
+			kit.Instrs(fn, func(in ssa.Instruction) {
+				st, isSt := in.(*ssa.Store)
+				if !isSt || w != "" {
+					return
+				}
+				fa, isFA := st.Addr.(*ssa.FieldAddr)
+				if !isFA || kit.FieldOfAddr(fa) != f || fa.X != base {
+					return
+				}
+				if kit.CanReach(st, at) {
+					w = walk(st.Val)
+				}
+			})
+			return w
+		}
+		return ""
+	}
+	return walk(key)
+}
+
 func c39IsSendToPeer(c ssa.CallInstruction) bool {
 	cal := kit.CalleeOf(c)
 	return cal.Name == "SendToPeer" && cal.Pkg == kit.PkgPath("internal/peer")
@@ -67,6 +182,7 @@ func c39IsSendToPeer(c ssa.CallInstruction) bool {
 func runC39(p *kit.Program, r *kit.Report) {
 	r.Rule("C39.R1", "forward table key: the table recording forwarded control requests carries a peer identity in its key or is keyed at every insertion by an id the transit allocates itself (never the bare id chosen by the requester)")
 	r.Rule("C39.R2", "unambiguous response demultiplexing: locally pending and forwarded requests draw their ids from the same allocator of the agent; a relayed response is sent only to the source peer recorded in the matched forwarded entry; that entry records the peer the request was received from")
+	r.Rule("C39.R4", "id translation discipline: each control table is looked up with the id as it arrived on the wire (never a value taken from a stored entry); the relayed response is re-encoded with the requester's id restored from the matched forwarded entry; the forwarded request carries the transit-allocated id under which the entry was registered, and the entry stores the requester's id")
 	r.Rule("C39.R3", "local request ids come from one agent-global counter; the counter is advanced, read and the pending entry registered inside one write-lock region, and the counter is never written outside that lock")
 	cx := c16NewCtx(p)
 	var fwd, pend *c16Eval
@@ -253,6 +369,173 @@ func runC39(p *kit.Program, r *kit.Report) {
 		r.Decide(ok && n > 0, "C39.R2", key, p.Pos(acc.Instr.Pos()),
 			"the entry's AgentID field is set to the id of the peer that delivered the request",
 			"the forwarded entry does not record the peer the request was received from: the response is routed to another agent")
+	}
+
+	// ---- R4a: every lookup of a control table uses the id as received
+	entryTypes := []types.Type{c16EntryType(fwd), c16EntryType(pend)}
+	isEntryBase := func(v ssa.Value) bool {
+		for _, t := range entryTypes {
+			if types.Identical(v.Type(), t) {
+				return true
+			}
+		}
+		return false
+	}
+	for _, ev := range []*c16Eval{pend, fwd} {
+		ord := map[string]int{}
+		for _, acc := range p.FieldAccessesOfKind(ev.Field, kit.MapLookup) {
+			if !cx.frameDriven[acc.Fn] {
+				continue // local bookkeeping (timeouts, getters) uses ids the agent issued itself
+			}
+			bad := c39ForeignKey(acc.Fn, acc.Key, acc.Instr, isEntryBase)
+			r.Decide(bad == "", "C39.R4", kit.FuncName(acc.Fn)+" "+c17Ord(ord, "lookup "+ev.Field.Name())+" uses the wire id", p.Pos(acc.Instr.Pos()),
+				"the lookup key is the id decoded from the frame, not redefined from a stored entry before the lookup",
+				"the key of this lookup can be "+bad+": an id from the requester's numbering space is compared with ids this agent allocated, so a relayed response is taken for (or hides) an unrelated request of this agent")
+		}
+	}
+
+	// ---- R4b: the relayed response carries the requester's id, restored from the matched entry
+	for _, fn := range demuxFns {
+		fwdEntries := map[ssa.Value]bool{}
+		for _, acc := range fwdLook[fn] {
+			lk := acc.Instr.(*ssa.Lookup)
+			if lk.CommaOk {
+				for _, rf := range *lk.Referrers() {
+					if e, ok := rf.(*ssa.Extract); ok && e.Index == 0 {
+						fwdEntries[e] = true
+					}
+				}
+			} else {
+				fwdEntries[lk] = true
+			}
+		}
+		fromEntryID := func(v ssa.Value) bool {
+			for _, leaf := range kit.PhiLeaves(c16Strip(v)) {
+				f, base := kit.LoadedField(c16Strip(leaf))
+				if f == nil || !fwdEntries[base] {
+					return false
+				}
+				if b, ok := f.Type().Underlying().(*types.Basic); !ok || b.Kind() != types.Uint64 {
+					return false
+				}
+			}
+			return true
+		}
+		for _, f := range kit.WithClosures(fn) {
+			ord := map[string]int{}
+			for _, c := range kit.Calls(f) {
+				if !c39IsSendToPeer(c) {
+					continue
+				}
+				key := kit.FuncName(fn) + " " + c17Ord(ord, "relayed response") + " carries the requester's id"
+				obj, enc := c39EncodedObject(c)
+				if obj == nil {
+					r.Floor("anchor-unresolved: cannot see which object is encoded into the frame sent at %s (C39.R4)", p.Pos(c.Pos()))
+					continue
+				}
+				ok := false
+				kit.Instrs(f, func(in ssa.Instruction) {
+					st, isSt := in.(*ssa.Store)
+					if !isSt {
+						return
+					}
+					fa, isFA := st.Addr.(*ssa.FieldAddr)
+					if !isFA || fa.X != obj {
+						return
+					}
+					if b, isB := kit.FieldOfAddr(fa).Type().Underlying().(*types.Basic); !isB || b.Kind() != types.Uint64 {
+						return
+					}
+					if !fromEntryID(st.Val) {
+						return
+					}
+					if kit.Precedes(st, enc) {
+						ok = true
+						return
+					}
+					// restored in one "if hasForwarded" block, encoded in a later one on the same condition
+					if kit.CanReach(st, enc) {
+						for _, gs := range kit.GuardsOf(st) {
+							for _, ge := range kit.GuardsOf(enc) {
+								if gs.Cond == ge.Cond && gs.Polarity == ge.Polarity {
+									ok = true
+								}
+							}
+						}
+					}
+				})
+				r.Decide(ok, "C39.R4", key, p.Pos(c.Pos()),
+					"before encoding, the response's id field is set from the id stored in the matched forwarded entry",
+					"the response is re-encoded without restoring the id the requester chose (no store of the matched entry's id into the encoded object precedes Encode on the forwarding path): the requester receives an id from this transit's numbering space, which matches none — or another — of its pending requests")
+			}
+		}
+	}
+
+	// ---- R4c: the forwarded request carries the allocated id; the entry keeps the requester's id
+	for _, acc := range p.FieldAccessesOfKind(fwd.Field, kit.MapInsert) {
+		fn := acc.Fn
+		if !fwd.R1OK {
+			continue // no translation exists; reported by R1
+		}
+		// entry stores the requester's id, not the allocated one
+		if a, isAlloc := acc.Val.(*ssa.Alloc); isAlloc {
+			okEntry, n := true, 0
+			for _, rf := range *a.Referrers() {
+				fa, isFA := rf.(*ssa.FieldAddr)
+				if !isFA {
+					continue
+				}
+				if b, isB := kit.FieldOfAddr(fa).Type().Underlying().(*types.Basic); !isB || b.Kind() != types.Uint64 {
+					continue
+				}
+				for _, rf2 := range *fa.Referrers() {
+					if st, isSt := rf2.(*ssa.Store); isSt && st.Addr == fa {
+						n++
+						if c16SameKey(st.Val, acc.Key) {
+							okEntry = false
+						}
+					}
+				}
+			}
+			r.Decide(okEntry && n > 0, "C39.R4", kit.FuncName(fn)+" entry keeps the requester's id", p.Pos(acc.Instr.Pos()),
+				"the forwarded entry stores an id different from the key it is registered under (the requester's id)",
+				"the forwarded entry does not keep the requester's id (it stores the transit-allocated key or nothing): the response cannot be handed back under the id the requester is waiting for")
+		}
+		// the request sent on carries the allocated key
+		ord := map[string]int{}
+		for _, c := range kit.Calls(fn) {
+			if !c39IsSendToPeer(c) || cx.peerValue(kit.Arg(c, 0)) || !kit.Precedes(acc.Instr, c) {
+				continue
+			}
+			obj, _ := c39EncodedObject(c)
+			if obj == nil {
+				continue
+			}
+			carries, n := false, 0
+			for _, rf := range *obj.Referrers() {
+				fa, isFA := rf.(*ssa.FieldAddr)
+				if !isFA {
+					continue
+				}
+				if b, isB := kit.FieldOfAddr(fa).Type().Underlying().(*types.Basic); !isB || b.Kind() != types.Uint64 {
+					continue
+				}
+				for _, rf2 := range *fa.Referrers() {
+					if st, isSt := rf2.(*ssa.Store); isSt && st.Addr == fa {
+						n++
+						if c16SameKey(st.Val, acc.Key) {
+							carries = true
+						}
+					}
+				}
+			}
+			if n == 0 {
+				continue
+			}
+			r.Decide(carries, "C39.R4", kit.FuncName(fn)+" "+c17Ord(ord, "forwarded request")+" carries the allocated id", p.Pos(c.Pos()),
+				"the request sent to the next hop carries the id under which the forwarded entry was registered",
+				"the request is sent on under an id other than the key of the forwarded entry (the requester's own id): the response comes back under a number this transit never registered, or one that belongs to another requester")
+		}
 	}
 
 	// ---- R3: allocation, read and registration in one write-lock region
